@@ -65,6 +65,7 @@ b("C11", T, "    return new_value if dt > step else old_value\n", "    return ne
 b("C11", T, "    return old_value + dt * (new_value - old_value)\n", "    return new_value + dt * (old_value - new_value)\n", "interpolation operands swapped")
 b("C11", T, "        while len(self.data) > 1 and self.data[1][0] <= time:\n", "        while len(self.data) > 1 and self.data[0][0] <= time:\n", "buffer cleared too far")
 b("C11", T, "        if time_range[1] is not None and time > time_range[1]:\n", "        if time_range[1] is not None and False:\n", "requests after the newest publication are served (extrapolation)")
+b("C11", T, "    return old_value + dt * (new_value - old_value)\n", "    return old_value if np.allclose(getattr(old_value, \"magnitude\", old_value), getattr(new_value, \"magnitude\", new_value)) else old_value + dt * (new_value - old_value)\n", "linear interpolation short-cut when the neighbours are np.allclose (wrong for values ~1e-9)")
 # ---- C12
 b("C12", TI, "            dt1 = max((self._prev_time - t_old) / time_range, 0.0)\n            dt2 = min((time - t_old) / time_range, 1.0)\n\n            if self._step is None:\n                v1 = interpolate(v_old, v_new, dt1)\n                v2 = interpolate(v_old, v_new, dt2)\n                value = (dt2 - dt1) * 0.5 * (v1 + v2)\n            else:\n                dt1_c = min(dt1, self._step)\n                dt2_c = max(self._step, dt2)\n                value = (min(self._step, dt2) - dt1_c) * v_old + (\n                    dt2_c - max(self._step, dt1)\n                ) * v_new\n\n            value *= time_range.total_seconds()", "            dt1 = (self._prev_time - t_old) / time_range\n            dt2 = min((time - t_old) / time_range, 1.0)\n\n            if self._step is None:\n                v1 = interpolate(v_old, v_new, dt1)\n                v2 = interpolate(v_old, v_new, dt2)\n                value = (dt2 - dt1) * 0.5 * (v1 + v2)\n            else:\n                dt1_c = min(dt1, self._step)\n                dt2_c = max(self._step, dt2)\n                value = (min(self._step, dt2) - dt1_c) * v_old + (\n                    dt2_c - max(self._step, dt1)\n                ) * v_new\n\n            value *= time_range.total_seconds()", "AvgOverTime: missing clamp of the interval start")
 b("C12", TI, "        self._clear_cached_data(self._prev_time)\n", "        self._clear_cached_data(time)\n", "drops an interval that is still needed")
